@@ -835,6 +835,11 @@ var c17set = newChk("C17", "set-get",
 		if got := get(p); got != want {
 			return obs.Failf("C17/set-get/"+name, want, "%s", got)
 		}
+		// what was set on this packet stays set while the same constructors are used, with other arguments, for other packets
+		c17Decoys()
+		if got := get(p); got != want {
+			return obs.Failf("C17/set-get/"+name+"/after-later-sets-on-other-packets", want, "%s", got)
+		}
 		q, err := dhcpv4.FromBytes(p.ToBytes())
 		if err != nil {
 			return obs.Failf("C17/set-get/decode", "decodes", "%v", err)
@@ -846,6 +851,31 @@ var c17set = newChk("C17", "set-get",
 		rec.NonTrivial(obs.HashJSON(c), func() any { return map[string]any{"accessor": name, "read_back": clipS(want)} })
 		return nil
 	})
+
+// c17Decoys builds and encodes another packet through every typed constructor with arguments of its own.
+func c17Decoys() {
+	ip := func(x byte) net.IP { return net.IP{203, 0, 113, x} }
+	d, _ := dhcpv4.New()
+	for _, o := range []dhcpv4.Option{
+		dhcpv4.OptBroadcastAddress(ip(1)), dhcpv4.OptRequestedIPAddress(ip(2)), dhcpv4.OptServerIdentifier(ip(3)), dhcpv4.OptRouter(ip(4), ip(5)),
+		dhcpv4.OptDNS(ip(6), ip(7), ip(8)), dhcpv4.OptNTPServers(ip(9)), dhcpv4.OptNetBIOSNameServers(ip(10)), dhcpv4.OptDomainName("decoy.example"),
+		dhcpv4.OptHostName("decoy-host"), dhcpv4.OptRootPath("/decoy"), dhcpv4.OptBootFileName("decoy.efi"), dhcpv4.OptTFTPServerName("decoy-tftp"),
+		dhcpv4.OptClassIdentifier("decoy-class"), dhcpv4.OptMessage("decoy message"), dhcpv4.OptIPAddressLeaseTime(77 * time.Second),
+		dhcpv4.OptRenewTimeValue(78 * time.Second), dhcpv4.OptRebindingTimeValue(79 * time.Second), dhcpv4.OptIPv6OnlyPreferred(80 * time.Second),
+		dhcpv4.OptMessageType(dhcpv4.MessageTypeNak), dhcpv4.OptSubnetMask(net.IPMask{255, 255, 0, 0}), dhcpv4.OptMaxMessageSize(1234),
+		dhcpv4.OptParameterRequestList(dhcpv4.OptionRouter, dhcpv4.OptionDomainNameServer, dhcpv4.OptionBootfileName),
+		dhcpv4.OptClasslessStaticRoute(&dhcpv4.Route{Dest: &net.IPNet{IP: net.IP{10, 9, 0, 0}, Mask: net.CIDRMask(16, 32)}, Router: ip(11)}),
+		dhcpv4.OptUserClass("decoy-user-class"), dhcpv4.OptRFC3004UserClass([]string{"decoy", "classes"}),
+		dhcpv4.OptVIVC(dhcpv4.VIVCIdentifier{EntID: 4242, Data: []byte("decoy-vivc")}), dhcpv4.OptClientArch(iana.EFI_X86_64, iana.EFI_ARM64),
+		dhcpv4.OptDomainSearch(&rfc1035label.Labels{Labels: []string{"decoy.example.org", "decoy.example.net"}}),
+		dhcpv4.OptRelayAgentInfo(dhcpv4.OptGeneric(dhcpv4.GenericOptionCode(1), []byte("decoy-circuit")), dhcpv4.OptGeneric(dhcpv4.GenericOptionCode(2), []byte("decoy-remote")), dhcpv4.OptGeneric(dhcpv4.GenericOptionCode(9), bytes.Repeat([]byte{0xDC}, 60))),
+		dhcpv4.OptAutoConfigure(dhcpv4.AutoConfigure),
+	} {
+		d.UpdateOption(o)
+	}
+	_ = d.ToBytes()
+	_ = d.Summary()
+}
 
 func clipS(s string) string {
 	if len(s) > 200 {
